@@ -162,11 +162,92 @@ class Flow:
             node = unit.cfg.node_of(e)
             if node is None:
                 return False
-            return any(
-                d.kind in ("assign", "walrus") and d.index is None and d.value is not None and self.is_storage(d.value, unit, depth + 1)
-                for d in unit.rd.reaching(node, e.id)
-            )
+            for d in unit.rd.reaching(node, e.id):
+                if d.kind in ("assign", "walrus") and d.index is None and d.value is not None and self.is_storage(d.value, unit, depth + 1):
+                    return True
+                if d.kind == "param" and self.param_is_storage(unit, d.name, depth + 1):
+                    return True
         return False
+
+    def param_is_storage(self, unit: Unit, pname: str, depth: int = 0) -> bool:
+        """helper extraction: does some call site inside the module hand a storage ContextVar in for this parameter?"""
+        key = ("ps", id(unit), pname)
+        if key in self.memo:
+            return bool(self.memo[key])
+        if key in self.active or depth > 4:
+            return False
+        self.active.add(key)
+        try:
+            r = False
+            for cu, call, off in self.call_sites(unit):
+                how, arg = self.site_arg(unit, pname, call, off)
+                if how == "arg" and arg is not None and self.is_storage(arg, cu, depth + 1):
+                    r = True
+                    break
+        finally:
+            self.active.discard(key)
+        self.memo[key] = frozenset([OTHER]) if r else frozenset()
+        return r
+
+    def site_arg(self, unit: Unit, pname: str, call: ast.Call, off: int) -> tuple[str, ast.AST | None]:
+        """what a call site passes for parameter ``pname`` of ``unit``:
+        ("arg", expr) | ("self", None) the implicit instance | ("default", expr or None) | ("unknown", None)."""
+        a = unit.fi.node.args
+        pos = [x.arg for x in a.posonlyargs + a.args]
+        kwonly = [x.arg for x in a.kwonlyargs]
+        if pname not in pos and pname not in kwonly:
+            return "unknown", None
+        for k in call.keywords:
+            if k.arg == pname:
+                return "arg", k.value
+        if pname in pos:
+            i = pos.index(pname) - off
+            if i < 0:
+                return "self", None
+            if i < len(call.args):
+                if any(isinstance(x, ast.Starred) for x in call.args[: i + 1]):
+                    return "unknown", None
+                return "arg", call.args[i]
+        if any(isinstance(x, ast.Starred) for x in call.args) or any(k.arg is None for k in call.keywords):
+            return "unknown", None
+        if pname in pos:
+            j = pos.index(pname) - (len(pos) - len(a.defaults))
+            return "default", (a.defaults[j] if 0 <= j < len(a.defaults) else None)
+        return "default", a.kw_defaults[kwonly.index(pname)]
+
+    def default_kind(self, e: ast.AST | None, unit: Unit, owner: t.Any = None, depth: int = 0) -> str | None:
+        """kind of the empty container ``e`` evaluates to; a local name is followed to its definitions and a helper's
+        parameter to what the call sites (of class ``owner`` when given) pass."""
+        k = is_empty_literal(e)
+        if k is not None or e is None:
+            return k
+        if isinstance(e, ast.NamedExpr):
+            return self.default_kind(e.value, unit, owner, depth)
+        if not isinstance(e, ast.Name) or depth > 3:
+            return None
+        node = unit.cfg.node_of(e)
+        defs = unit.rd.reaching(node, e.id) if node is not None else frozenset()
+        kinds: set[str | None] = set()
+        for d in defs:
+            if d.kind in ("assign", "walrus") and d.index is None and d.value is not None:
+                kinds.add(self.default_kind(d.value, unit, owner, depth + 1))
+            elif d.kind == "param":
+                sites = [s for s in self.call_sites(unit) if owner is None or s[0].cls is owner] or self.call_sites(unit)
+                if not sites:
+                    return None
+                for cu, call, off in sites:
+                    how, arg = self.site_arg(unit, d.name, call, off)
+                    if how == "arg":
+                        kinds.add(self.default_kind(arg, cu, owner, depth + 1))
+                    elif how == "default":
+                        kinds.add(is_empty_literal(arg))
+                    else:
+                        kinds.add(None)
+            else:
+                return None
+        if len(kinds) == 1:
+            return kinds.pop()
+        return None
 
     def storage_method(self, c: ast.Call, unit: Unit) -> str | None:
         """name of the ContextVar method a call invokes on a storage slot (directly or through a bound-method alias)."""
@@ -192,6 +273,43 @@ class Flow:
             if isinstance(n, ast.Call) and self.storage_method(n, unit) == attr:
                 out.append(n)
         out.sort(key=lambda c: (c.lineno, c.col_offset))
+        return out
+
+    def bindings(self, unit: Unit) -> list[tuple[ast.Call, ast.AST | None]]:
+        """(call in unit, bound value as written in unit) for every rebinding of a storage ContextVar the unit performs:
+        `<storage>.set(v)` itself, or - one level of helper extraction - a call of a helper of this module that on
+        every normal path does `<storage>.set(<its parameter>)` (value = what this call passes for that parameter)."""
+        out: list[tuple[ast.Call, ast.AST | None]] = []
+        for n in unit.walk():
+            if not isinstance(n, ast.Call):
+                continue
+            if self.storage_method(n, unit) == "set":
+                out.append((n, n.args[0] if n.args else next((k.value for k in n.keywords), None)))
+                continue
+            for cu, off in self.callees(n, unit):
+                if cu is unit:
+                    continue
+                for s in self.storage_calls(cu, "set"):
+                    v = s.args[0] if s.args else None
+                    sn = cu.cfg.node_of(s)
+                    if not isinstance(v, ast.Name) or sn is None:
+                        continue
+                    defs = cu.rd.reaching(sn, v.id)
+                    if len(defs) != 1 or next(iter(defs)).kind != "param":
+                        continue
+                    if not cu.cfg.all_paths_pass(cu.cfg.entry, [cu.cfg.exit], [sn]):
+                        continue
+                    recv = s.func.value if isinstance(s.func, ast.Attribute) else None
+                    if isinstance(recv, ast.Name) and any(d.kind == "param" for d in cu.rd.reaching(sn, recv.id)):  # the ContextVar is a parameter too: this site must hand a storage in
+                        how0, a0 = self.site_arg(cu, recv.id, n, off)
+                        if how0 != "arg" or a0 is None or not self.is_storage(a0, unit):
+                            continue
+                    how, arg = self.site_arg(cu, v.id, n, off)
+                    if how == "arg":
+                        out.append((n, arg))
+                    elif how == "default":
+                        out.append((n, arg))
+        out.sort(key=lambda p: (p[0].lineno, p[0].col_offset))
         return out
 
     # -- tag evaluation -----------------------------------------------------
@@ -341,6 +459,8 @@ class Flow:
             return [OTHER]
         if d.kind == "unpack":
             v = d.value
+            if isinstance(getattr(d.target, "_parent", None), ast.Starred):
+                return [FRESH]  # `*rest, last = xs` collects into a new list
             if isinstance(v, (ast.Tuple, ast.List)) and d.index is not None and d.index < len(v.elts) and not any(isinstance(x, ast.Starred) for x in v.elts):
                 tg = getattr(d.target, "_parent", None)
                 if isinstance(tg, (ast.Tuple, ast.List)) and len(tg.elts) == len(v.elts) and not any(isinstance(x, ast.Starred) for x in tg.elts):
@@ -436,21 +556,11 @@ class Flow:
             if unit.outer is not None and not sites:
                 out.add(OTHER)
             for cu, call, off in sites:
-                arg: ast.AST | None = None
-                for k in call.keywords:
-                    if k.arg == pname:
-                        arg = k.value
-                if arg is None and pname in pos:
-                    i = pos.index(pname) - off
-                    if 0 <= i < len(call.args) and not any(isinstance(x, ast.Starred) for x in call.args[: i + 1]):
-                        arg = call.args[i]
-                    elif i < 0:
-                        out.add(OTHER)  # the instance itself
-                        continue
-                if arg is None:
-                    out.add(OTHER)  # default value / not mappable
-                else:
+                how, arg = self.site_arg(unit, pname, call, off)
+                if how == "arg" and arg is not None:
                     out |= self.tags(arg, cu)
+                else:
+                    out.add(OTHER)  # the instance itself / default value / not mappable
             return out
 
         return self._guarded(("p", id(unit), pname), compute)
@@ -487,14 +597,44 @@ class EmptyRun:
 
     UNKNOWN = object()
 
-    def __init__(self, flow: Flow, unit: Unit, kind: str):
+    def __init__(self, flow: Flow, unit: Unit, kind: str, stack: tuple[int, ...] = (), owner: t.Any = None):
         self.flow = flow
         self.unit = unit
         self.kind = kind
+        self.owner = owner if owner is not None else unit.cls  # the storage class whose payload is assumed empty
         self.exc = "KeyError" if kind == "dict" else "IndexError"
         self.decided = 0
         self.outcomes: list[Outcome] = []
+        self.stack = stack + (id(unit),)
+        self._subs: dict[int, "EmptyRun | None"] = {}
         self._run()
+
+    # -- one level (at most two) of helper extraction ------------------------
+    def sub(self, call: ast.Call) -> "EmptyRun | None":
+        """the abstract run of the helper of this module that ``call`` invokes (same context: its reads of the ContextVar
+        are empty too, its parameters are empty where every call site passes something empty)."""
+        if id(call) in self._subs:
+            return self._subs[id(call)]
+        r: EmptyRun | None = None
+        callees = self.flow.callees(call, self.unit)
+        if len(callees) == 1 and len(self.stack) < 3:
+            cu = callees[0][0]
+            gen = any(isinstance(n, (ast.Yield, ast.YieldFrom)) for n in cu.walk())
+            if id(cu) not in self.stack and not gen and not isinstance(cu.fi.node, ast.AsyncFunctionDef):
+                r = EmptyRun(self.flow, cu, self.kind, self.stack, self.owner)
+        self._subs[id(call)] = r
+        return r
+
+    def helper_calls(self, root: ast.AST | None) -> list[tuple[ast.Call, "EmptyRun"]]:
+        out = []
+        if root is None:
+            return out
+        for c in [root, *walk_no_nested(root)]:
+            if isinstance(c, ast.Call):
+                s = self.sub(c)
+                if s is not None:
+                    out.append((c, s))
+        return out
 
     # -- emptiness ------------------------------------------------------
     def is_empty(self, e: ast.AST | None, depth: int = 0, unit: Unit | None = None) -> bool:
@@ -504,7 +644,7 @@ class EmptyRun:
         if isinstance(e, ast.Call):
             f = e.func
             if self.flow.storage_method(e, u) == "get":
-                return bool(e.args) and is_empty_literal(e.args[0]) is not None
+                return bool(e.args) and self.flow.default_kind(e.args[0], u, self.owner) is not None
             if isinstance(f, ast.Attribute) and f.attr == "copy" and not e.args:
                 return self.is_empty(f.value, depth + 1, u)
             if isinstance(f, ast.Name) and f.id in ("list", "dict", "tuple") and len(e.args) == 1 and not e.keywords:
@@ -537,7 +677,23 @@ class EmptyRun:
             if node is None:
                 return False
             defs = u.rd.reaching(node, e.id)
-            return bool(defs) and all(d.kind in ("assign", "walrus") and d.index is None and d.value is not None and self.is_empty(d.value, depth + 1, u) for d in defs)
+            return bool(defs) and all(self._def_empty(d, depth, u) for d in defs)
+        return False
+
+    def _def_empty(self, d: Def, depth: int, u: Unit) -> bool:
+        if d.kind in ("assign", "walrus") and d.index is None and d.value is not None:
+            return self.is_empty(d.value, depth + 1, u)
+        if d.kind == "param":
+            name = u.fi.name
+            private = u.outer is not None or (name.startswith("_") and not (name.startswith("__") and name.endswith("__")))
+            sites = self.flow.call_sites(u)
+            if not private or not sites:
+                return False
+            for cu, call, off in sites:
+                how, arg = self.flow.site_arg(u, d.name, call, off)
+                if how not in ("arg", "default") or arg is None or not self.is_empty(arg, depth + 1, cu if how == "arg" else u):
+                    return False
+            return True
         return False
 
     def ev(self, e: ast.AST) -> t.Any:
@@ -554,6 +710,19 @@ class EmptyRun:
         if isinstance(e, ast.UnaryOp) and isinstance(e.op, ast.Not):
             v = self.ev(e.operand)
             return U if v is U else (not v)
+        if isinstance(e, ast.Call):
+            s = self.sub(e)
+            if s is not None and s.outcomes and all(o.kind == "return" for o in s.outcomes):
+                vals = []
+                for o in s.outcomes:
+                    rv = o.node.ast.value if isinstance(o.node.ast, ast.Return) else None
+                    v = None if rv is None else s.ev(rv)
+                    if v is U or isinstance(v, (list, dict)) or any(v is not w and v != w for w in vals):
+                        return U
+                    vals.append(v)
+                self.decided += s.decided
+                return vals[0]
+            return U
         if isinstance(e, ast.BoolOp):
             res: t.Any = U
             for v_ in e.values:
@@ -687,15 +856,39 @@ class EmptyRun:
             if n.kind == "stmt" and a is not None and not isinstance(a, (ast.FunctionDef, ast.AsyncFunctionDef, ast.ClassDef)) and self._raising(a):
                 self._raise(n, self.exc, work, implicit=True)
                 continue
+            if n.kind == "stmt" and a is not None and not isinstance(a, (ast.FunctionDef, ast.AsyncFunctionDef, ast.ClassDef)):
+                # helpers of this module called here: what they raise with an empty payload is raised here
+                goes_on = True
+                for c_, s_ in self.helper_calls(a):
+                    self.decided += s_.decided
+                    for o in s_.outcomes:
+                        if o.kind in ("raise", "uncaught"):
+                            self._raise(n, o.detail, work, implicit=o.kind == "uncaught", count=False)
+                    if not any(o.kind == "return" for o in s_.outcomes):
+                        goes_on = False
+                    elif isinstance(a, ast.Return) and self._through(a.value) is c_:
+                        for o in s_.outcomes:
+                            if o.kind == "return":
+                                self.outcomes.append(Outcome("return", n, o.detail))
+                        goes_on = False
+                if not goes_on:
+                    continue
             if isinstance(a, ast.Return):
                 self.outcomes.append(Outcome("return", n, self._value(a.value)))
                 continue
             work.extend(s for s, l in n.succs if l != "exc")
 
-    def _raise(self, n: Node, exc: str | None, work: list[Node], implicit: bool) -> None:
+    @staticmethod
+    def _through(e: ast.AST | None) -> ast.AST | None:
+        """the expression a return hands on unchanged (typing.cast, parentheses)."""
+        while isinstance(e, ast.Call) and (dotted(e.func) or "").endswith("cast") and len(e.args) == 2:
+            e = e.args[1]
+        return e
+
+    def _raise(self, n: Node, exc: str | None, work: list[Node], implicit: bool, count: bool = True) -> None:
         hs = self._exc_targets(n, exc)
         if hs:
-            if implicit:
+            if implicit and count:
                 self.decided += 1
             work.extend(hs[:1])
         else:
